@@ -77,6 +77,7 @@ def build_dag(n, edges, names=NAMES, cls=None, order=None):
         g.add_node(x)
     for i, j in edges:
         g.add_edge(names[i], names[j])
+    stress(g, ('dag', n, tuple(edges)))
     return g
 
 
@@ -89,6 +90,8 @@ def build_mixed(nodes, typed_edges, cls=None, validate=True):
         g.add_node(x)
     for s, d, t in typed_edges:
         g.add_edge(s, d, edge_type=EdgeType(t), validate=validate)
+    if validate:
+        stress(g, ('mixed', tuple(nodes), tuple(typed_edges)))
     return g
 
 
@@ -127,3 +130,115 @@ def brute_descendants(nodes, edges):
                 desc[x] |= new
                 changed = True
     return desc
+
+
+# ----------------------------------------------------------------------------------------------------------------
+# state-preserving stress: interactions that leave a correct graph exactly as it was, but expose write-then-undo and
+# cache bugs to the query lanes (rejected cycle-closing edge, partially failing bulk adder, warm caches in between)
+# ----------------------------------------------------------------------------------------------------------------
+
+def _warm(g):
+    for f in (g.is_dag, g.to_networkx, lambda: g.adjacency_matrix, lambda: g.identifier):
+        try:
+            f()
+        except Exception:  # noqa: BLE001
+            pass
+
+
+def stress(g, key):
+    """deterministic in `key`; returns the list of interactions performed (for tags)"""
+    import hashlib
+    h = int(hashlib.sha1(repr(key).encode()).hexdigest(), 16)
+    if h % 2:
+        return []
+    done = []
+    from cai_causal_graph.type_definitions import EdgeType
+    directed = [(e.source.identifier, e.destination.identifier) for e in g.get_edges()
+                if e.get_edge_type() == EdgeType.DIRECTED_EDGE]
+    names = g.get_node_names()
+    desc = brute_descendants(names, directed)
+    joined = {(e.source.identifier, e.destination.identifier) for e in g.get_edges()}
+    joined |= {(b, a) for a, b in joined}
+    _warm(g)
+    # 1. a rejected cycle-closing edge between non-adjacent nodes (the insert-check-rollback path)
+    cands = [(s, d) for d in names for s in sorted(desc[d]) if (s, d) not in joined]
+    if cands:
+        s, d = cands[h // 7 % len(cands)]
+        try:
+            g.add_edge(s, d)
+            done.append('cycle-accepted!')
+        except Exception:  # noqa: BLE001
+            done.append('rejected-cycle')
+    # 2. delete an edge, warm the caches, re-add it through a bulk adder whose LAST element is rejected
+    if directed:
+        a, b = directed[h // 11 % len(directed)]
+        meta = dict(g.get_edge(a, b).meta)
+        try:
+            g.delete_edge(a, b)
+            _warm(g)
+            try:
+                if h // 3 % 2:
+                    g.add_edges_from([(a, b), (b, a)])
+                else:
+                    g.add_edges_from_paths([[a, b], [b, a]])
+                done.append('bulk-accepted!')
+            except Exception:  # noqa: BLE001
+                done.append('bulk-partial')
+            if meta and g.edge_exists(a, b):
+                g.get_edge(a, b).meta.update(meta)
+        except Exception:  # noqa: BLE001
+            done.append('stress-raised')
+    return done
+
+
+def node_forms(g, name):
+    """the ways a caller can name a node: identifier, the graph's own node, a fresh equal node, the node of a copy"""
+    from cai_causal_graph.graph_components import Node, TimeSeriesNode
+    forms = [('id', name)]
+    try:
+        forms.append(('own', g.get_node(name)))
+        cls = type(g.get_node(name))
+        forms.append(('fresh', cls(name)))
+        forms.append(('copy', g.copy().get_node(name)))
+    except Exception:  # noqa: BLE001
+        pass
+    return forms
+
+
+def nodeform_agree(g, names, fns, key=None):
+    """each fn(x, y) must answer the same whether x, y are identifiers, the graph's own Nodes, fresh equal Nodes or
+    Nodes of a copy of the graph; checked on one deterministic pair per graph.  Returns failure strings."""
+    import hashlib
+    if len(names) < 2:
+        return []
+    h = int(hashlib.sha1(repr(key if key is not None else names).encode()).hexdigest(), 16)
+    a = names[h % len(names)]
+    b = names[(h // 5 + 1 + h % len(names)) % len(names)] if len(names) > 1 else a
+    if a == b:
+        b = names[(names.index(a) + 1) % len(names)]
+
+    def canon(x):
+        if isinstance(x, (set, list, tuple)):
+            try:
+                return sorted(getattr(e, 'identifier', e) for e in x)
+            except TypeError:
+                return repr(x)
+        return x
+    fa, fb = node_forms(g, a), dict(node_forms(g, b))
+    fails = []
+    for label, f in fns:
+        try:
+            base = canon(f(a, b))
+        except Exception as e:  # noqa: BLE001
+            base = '!' + type(e).__name__
+        for form, xa in fa[1:]:
+            xb = fb.get(form, b)
+            try:
+                got = canon(f(xa, xb))
+            except Exception as e:  # noqa: BLE001
+                got = '!' + type(e).__name__
+            if got != base:
+                fails.append(f'{label}: naming the nodes by {form} Node objects gives {got!r}, by identifier {base!r} '
+                             f'(nodes {a!r}, {b!r})')
+                break
+    return fails[:2]
